@@ -63,6 +63,14 @@ def _chunk(args):
             bad = compare(exp, got, ignore_below=abandoned_below(world))
             if bad:
                 fails.append((bad[0].replace("execute:", "runtime:"), dict({k: v for k, v in w.items() if k != "_outcomes"}, config=cfg), "%s: %s" % (cfg, bad[1])))
+        # the asyncio runtime in its default mode (plain resolvers offloaded to worker threads): same outcome, data, errors and resolver invocations
+        got = H.run_request(H.make_schema(dset), query, variables, world, "executor-asyncio-offload")
+        w["_outcomes"].add(got["outcome"])
+        n += 1
+        bad = compare(exp, got, ignore_below=abandoned_below(world))
+        if bad:
+            fails.append((bad[0].replace("execute:", "runtime:"), dict({k: v for k, v in w.items() if k != "_outcomes"}, config="executor-asyncio-offload"),
+                          "executor-asyncio-offload: %s" % bad[1]))
         for cfg, asyn in (("executor-threadpool", False), ("executor-asyncio", True)):
             r, t, f, ex = explore(H.make_schema(dset, asynchronous=asyn), query, variables, world, cfg, exp, cap, w)
             n += r
@@ -103,7 +111,7 @@ def check(tier, seed):
             continue
         _name, worlds = H.worlds_for(schema, query, variables, with_boom=True, limit=None)
         if tier != "thorough":
-            bad = [x for x in worlds if x[0].startswith(("badleaf@", "boom-index@", "boom-key@", "shared-error@"))]
+            bad = [x for x in worlds if x[0].startswith(("badleaf@", "boom-index@", "boom-key@", "boom-lib@", "shared-error@"))]
             worlds = worlds[:1] + rnd.sample(worlds[1:], min(len(worlds) - 1, 6))
             worlds += [x for x in bad if x not in worlds and (not x[0].startswith("badleaf@") or x in (bad[0], bad[-1]))]      # fixed members
         for wname, world in worlds:
